@@ -503,8 +503,12 @@ class DataLoader(object):
             # since we need to decode the messages to see if they have valid timestamps. The index only stores P1 time,
             # not system time. The read_next() call below will apply this condition and only return messages with valid
             # system time.
+            #
+            # The same applies to every other condition that is only tested when a message is read (source identifier,
+            # presence of P1 time, byte limit): the index cannot be cut to N entries before those are applied.
             if (max_messages is not None and self.reader.have_index() and
-                    not (require_system_time and system_time_messages_requested)):
+                    not require_p1_time and not require_system_time and max_bytes is None and
+                    source_ids == self.reader.get_available_source_ids()):
                 reader_max_messages_applied = True
                 if max_messages >= 0:
                     self.reader.filter_in_place(slice(None, max_messages))
